@@ -694,6 +694,124 @@ class SwapOrbitalQuantities:
         return bool(not w <= 1e-9), info
 
 
+class EsicSpinTreatments:
+    """BOUNDED native: the self-interaction energy get_Esic (the only energy that reads the filling TABLE state by state) under the two statements of the property:
+    (a) an open-shell table with different fillings in several states ([1, 1, 1] / [1, 0, 0]) and its mirror with exchanged orbitals give the same energy;
+    (b) a spin-paired state with fillings [2, 1] and the same state through the polarised path ([1, 0.5] / [1, 0.5], both channels with the same orbitals) do."""
+
+    def case(self, seed):
+        import eminus
+        from eminus import SCF, Atoms
+        from eminus.dft import orth
+        from eminus.energies import get_Esic
+
+        eminus.config.backend = "numpy"
+        eminus.config.verbose = "critical"
+        rng = np.random.default_rng(seed)
+        cell = [[6.0, 0.3, 0.1], [0.2, 6.5, 0.4], [0.5, 0.1, 7.0]]
+        diffs = {}
+        for xc in ("lda,vwn", "pbe"):
+            # (a) mirror of an open-shell table with three states
+            vals = []
+            W0 = None
+            for swap in (False, True):
+                at = Atoms("C", [[0.1, 0.2, 0.3]], ecut=4, a=cell, unrestricted=True, spin=2)
+                scf = SCF(at, xc=xc, verbose="critical")
+                a = scf.atoms
+                f = np.array([[[1.0, 1.0, 1.0], [1.0, 0.0, 0.0]]])
+                if np.asarray(a.occ.f).shape != f.shape or np.abs(np.asarray(a.occ.f) - f).max() > 0:
+                    raise RuntimeError("harness: the triplet C atom does not have the fillings [1, 1, 1] / [1, 0, 0]")
+                if W0 is None:
+                    W0 = [rng.standard_normal((2, len(a.Gk2c[0]), 3)) + 1j * rng.standard_normal((2, len(a.Gk2c[0]), 3))]
+                a.occ._f = f[:, ::-1].copy() if swap else f.copy()
+                Y = orth(a, [w[::-1].copy() for w in W0] if swap else [w.copy() for w in W0])
+                scf.Y = Y
+                vals.append(float(get_Esic(scf, Y)))
+            diffs[f"{xc}: [1,1,1]/[1,0,0] vs its mirror"] = abs(vals[0] - vals[1]) / max(1e-12, abs(vals[0]))
+            # (b) paired [2, 1] vs polarised [1, 0.5] / [1, 0.5]
+            at = Atoms("Li", [[0.1, 0.2, 0.3]], ecut=4, a=cell, unrestricted=False)
+            scf = SCF(at, xc=xc, verbose="critical")
+            a = scf.atoms
+            if np.asarray(a.occ.f).shape != (1, 1, 2):
+                raise RuntimeError("harness: the spin-paired Li atom does not have two states")
+            a.occ._f = np.array([[[2.0, 1.0]]])
+            W1 = [rng.standard_normal((1, len(a.Gk2c[0]), 2)) + 1j * rng.standard_normal((1, len(a.Gk2c[0]), 2))]
+            Y = orth(a, W1)
+            scf.Y = Y
+            e_paired = float(get_Esic(scf, Y))
+            at = Atoms("Li", [[0.1, 0.2, 0.3]], ecut=4, a=cell, unrestricted=True)
+            scf = SCF(at, xc=xc, verbose="critical")
+            a = scf.atoms
+            a.occ._f = np.array([[[1.0, 0.5], [1.0, 0.5]]])
+            Y2 = orth(a, [np.concatenate([W1[0], W1[0]], axis=0)])
+            scf.Y = Y2
+            e_pol = float(get_Esic(scf, Y2))
+            diffs[f"{xc}: paired [2,1] vs polarised [1,.5]/[1,.5]"] = abs(e_paired - e_pol) / max(1e-12, abs(e_paired))
+        return max(diffs.values()), dict(diffs=diffs)
+
+    def __call__(self, ob, tier, seed):
+        from pycv.framework import BOUNDED_OK
+
+        w, info = self.case(seed)
+        if not w <= 1e-9:
+            return Result(REFUTED, backend="native", witness=dict(seed=seed), replayed=True, replay_info=info, detail=f"self-interaction energy under the two spin treatments / the exchange of the channels: {info['diffs']}")
+        return Result(BOUNDED_OK, backend="native", detail=f"bounded: LDA and PBE: mirror of a three-state open-shell table, paired [2, 1] vs polarised [1, .5] / [1, .5]: relative differences up to {w:.1e}")
+
+    def replay(self, wit):
+        w, info = self.case(wit["seed"])
+        return bool(not w <= 1e-9), info
+
+
+class MagnetisationMirror:
+    """BOUNDED native: fillings for a requested magnetisation M and for -M (assigned on a built object) are mirror images of each other: which channel holds
+    the majority only exchanges the two rows (C, N, O; M = 0.1 .. 0.7: integer and fractional populations, channels that empty one or several states)."""
+
+    def case(self):
+        import eminus
+        from eminus import Atoms
+
+        eminus.config.backend = "numpy"
+        eminus.config.verbose = "critical"
+        bad = []
+        n = 0
+        for sym in ("C", "N", "O"):
+            for M in (0.1, 0.25, 0.5, 0.7):
+                out = []
+                for sgn in (1, -1):
+                    at = Atoms(sym, [[0.0, 0.0, 0.0]], ecut=1, a=6, unrestricted=True)
+                    at.build()
+                    at.occ.magnetization = sgn * M
+                    out.append(np.asarray(at.occ.f)[0].copy())
+                n += 1
+                nel = float(out[0].sum())
+                if out[0].shape != out[1].shape or np.abs(out[0] - out[1][::-1]).max() > 1e-12 or abs((out[0][0].sum() - out[0][1].sum()) / nel - M) > 1e-12:
+                    bad.append(dict(atom=sym, magnetisation=M, fillings_plus=out[0].tolist(), fillings_minus=out[1].tolist()))
+        return n, bad
+
+    def __call__(self, ob, tier, seed):
+        from pycv.framework import BOUNDED_OK
+
+        n, bad = self.case()
+        if bad:
+            return Result(REFUTED, backend="native", witness=dict(first=bad[0]), replayed=True, replay_info=dict(failing=bad[:4]),
+                          detail=f"{bad[0]['atom']}: fillings for magnetisation -{bad[0]['magnetisation']} ({bad[0]['fillings_minus']}) are not the mirror of those for +{bad[0]['magnetisation']} ({bad[0]['fillings_plus']})")
+        return Result(BOUNDED_OK, backend="native", detail=f"bounded: {n} (atom, magnetisation) pairs: the fillings for -M are the exchanged rows of the fillings for +M, up - down = M Nelec")
+
+    def replay(self, wit):
+        n, bad = self.case()
+        return bool(bad), dict(failing=bad[:4])
+
+
+register(Obligation(name="C08.fill.magnetisation_sign_exchanges_the_channels", prop=PROP, engine="B", bounded=True, run=MagnetisationMirror(),
+                    functions=["eminus.occupations:Occupations._fractional_fillings", "eminus.occupations:Occupations.magnetization"],
+                    doc="BOUNDED: the fillings for magnetisation -M are those for +M with the two spin channels exchanged"))
+
+
+register(Obligation(name="C08.get_Esic.spin_treatments_and_swap", prop=PROP, engine="B", bounded=True, run=EsicSpinTreatments(), budget={"quick": 300, "thorough": 600},
+                    functions=["eminus.energies:get_Esic", "eminus.dft:get_n_single"],
+                    doc="BOUNDED: the self-interaction energy is unchanged by exchanging the spin channels of an open-shell table and equal for a paired state and the same state through the polarised path"))
+
+
 register(Obligation(name="C08.swap.orbital_quantities_open_shell", prop=PROP, engine="B", bounded=True, run=SwapOrbitalQuantities(), budget={"quick": 300, "thorough": 600},
                     functions=["eminus.dft:get_n_spin", "eminus.dft:get_n_single", "eminus.gga:get_tau", "eminus.dft:orth_unocc", "eminus.dft:get_epsilon_unocc", "eminus.energies:get_E"],
                     doc="BOUNDED: exchanging the two spin channels of an open-shell state (different fillings) exchanges densities, tau, unoccupied orbitals / eigenvalues and potentials"))
